@@ -132,6 +132,10 @@ func (o Options) fromBytesCheckEnd(data []byte, checkEndOption bool) error {
 			break
 		}
 		length := int(buf.Read8())
+		if buf.Error() != nil {
+			// An option code without a length byte.
+			return fmt.Errorf("error collecting options: %v", buf.Error())
+		}
 
 		// N bytes: option data
 		data := buf.Consume(length)
